@@ -105,7 +105,7 @@ impl<'lib> DepOrder<'lib> {
 //|                         forall|x: Ptr<Cell>| self.seen@.contains(x) && !old(self).seen@.contains(x) ==> rank(x) < rank(*ptr),
 //|                         forall|s: Set<Ptr<Cell>>, x: Ptr<Cell>| #[trigger] closed_under(s, deps_fn()) && s.contains(*ptr) && #[trigger] self.seen@.contains(x) && !old(self).seen@.contains(x) ==> s.contains(x),
 //|                         forall|k: int| 0 <= k < it.index@ ==> self.seen@.contains(#[trigger] layout.insts@[k].cell),
-//@   before /self\.push\(&inst\.cell\);/
+//@   loopstart 1
 //|                     let ghost before = self.stack@; let ghost seen0 = self.seen@;
 //|                     proof { assert(dep_seq(*layout)[it.index@ as int] == inst.cell); assert(dep_seq(*layout).contains(inst.cell)); assert(deps(*ptr).contains(inst.cell)); }
 //@   loopend 1
